@@ -131,3 +131,25 @@ package tree
 // and an internal level holding a single child is never written: it is replaced by its canonical descendant,
 // whether or not the chunker was started from a cursor (same content, same tree, whatever the edit history)
 //@   at call getCanonicalRoot: assert tc.level != 0 && len(tc.builder.keys) <= 1
+
+// ---- collated comparison of out-of-band text (C16): a side is treated as ended only when it is exhausted
+
+//@ func verif_fullRune
+//@   pure
+//@   opaque
+//@ extern unicode/utf8.FullRune as verif_x_utf8_FullRune
+//@   modifies nothing
+//@   ensures ok == verif_fullRune(p)
+
+// pullFrom (the closure that refills both buffers): when it returns normally, EACH side either holds a complete
+// rune or has no more chunks — so the comparison never mistakes "waiting for the next chunk" for "ended"
+//@ func compareCollatedChunkDiffer$1
+//@   property C16
+//@   ensures  result == nil ==> (lDone || verif_fullRune(lBuf)) && (rDone || verif_fullRune(rBuf))
+
+// JsonChunker.Done: chunk boundaries are decided by the content-based splitter (inside processBuffer) and by nothing
+// else — the only boundary Done itself may force is the end of the document. (An edited document is then stored as
+// the same tree as the same document written from scratch.)
+//@ func (*JsonChunker).Done
+//@   property C16
+//@   at call createNewLeafChunk: assert len(arg2:[]byte) == 1 && (arg2:[]byte)[0] == byte(endOfValue)
